@@ -956,6 +956,9 @@ theorem EmbSH.toEmbS (hs : List Spec.Name) (s : Stmt) (n : Node) (h : EmbSH hs s
   | set lv v => obtain ⟨p, q, l, r, rfl, hl, hr⟩ := h; exact ⟨p, q, l, r, rfl, hl, EmbH.toEmb hs v r hr⟩
   | call f as => obtain ⟨p, q, q', ops, rfl, hops⟩ := h; exact ⟨p, q, q', _, ops, rfl, EmbLH.toEmbL hs as ops hops⟩
   | exit => exact h
+  | put m v lv => obtain ⟨p, q, l, r, rfl, hl, hr⟩ := h; exact ⟨p, q, l, r, rfl, hl, EmbH.toEmb hs v r hr⟩
+  | delete t => exact h
+  | hilite t => exact h
   | _ => simp [EmbSH] at h
 
 theorem EmbSsH.toEmbSs (hs : List Spec.Name) : ∀ (ss : List Stmt) (ns : List Node), EmbSsH hs ss ns → EmbSs ss ns
@@ -2221,6 +2224,161 @@ theorem exec_setoprop (ctx : Lscr.Ctx) (i : Nat) (v : Spec.Name) (hn : ctx.names
   unfold process1
   simp only [nameAt, pyGet_some _ _ _ hn, PState.pop, hs, PState.addStmt, assignNode, Bind.bind, Except.bind, pure, Except.pure]
 
+
+/-! #### `put … into|after|before`, `delete`, `hilite`: the opcodes 59 xx / 5a xx / 5b xx / 18 -/
+
+theorem bi_lookup_59 : Opcodes.opcodes.lookup 0x59 = some { cls := "AssignBeforeFieldOpcode", impl := "AssignModeFieldOpcode", nbytes := 2, kind := "bi", attrs := [("mode", "before")] } := rfl
+theorem bi_lookup_5a : Opcodes.opcodes.lookup 0x5a = some { cls := "PutIntoFieldSpOpcode", impl := "PutIntoFieldSpOpcode", nbytes := 2, kind := "bi", attrs := [] } := rfl
+theorem bi_lookup_5b : Opcodes.opcodes.lookup 0x5b = some { cls := "DeleteFromStringOpcode", impl := "DeleteFromStringOpcode", nbytes := 2, kind := "bi", attrs := [] } := rfl
+
+/-- the model's bi-opcode entry of `59 (hi + 5)` / `59 (hi + 6)`, `5a (hi + 5)` / `5a (hi + 6)` -/
+def modeInfo (m : PutMode) (fld : Bool) : Opcodes.OpInfo :=
+  match m, fld with
+  | .into, false => { cls := "AssignIntoLocalVarOpcode", impl := "AssignModeLocalVarOpcode", nbytes := 2, kind := "bi", attrs := [("mode", "into")] }
+  | .after, false => { cls := "AssignAfterLocalVarOpcode", impl := "AssignModeLocalVarOpcode", nbytes := 2, kind := "bi", attrs := [("mode", "after")] }
+  | .before, false => { cls := "AssignBeforeLocalVarOpcode", impl := "AssignModeLocalVarOpcode", nbytes := 2, kind := "bi", attrs := [("mode", "before")] }
+  | .into, true => { cls := "AssignIntoFieldOpcode", impl := "AssignModeFieldOpcode", nbytes := 2, kind := "bi", attrs := [("mode", "into")] }
+  | .after, true => { cls := "AssignAfterFieldOpcode", impl := "AssignModeFieldOpcode", nbytes := 2, kind := "bi", attrs := [("mode", "after")] }
+  | .before, true => { cls := "AssignBeforeFieldOpcode", impl := "AssignModeFieldOpcode", nbytes := 2, kind := "bi", attrs := [("mode", "before")] }
+
+theorem mode_table (m : PutMode) (fld : Bool) :
+    Opcodes.biOpcodes.lookup (0x59 * 256 + (m.hi + (if fld then 6 else 5))) = some (modeInfo m fld) ∧
+      attr (modeInfo m fld) "mode" = .ok m.tag.toList := by
+  cases m <;> cases fld <;> exact ⟨rfl, rfl⟩
+
+theorem exec_59 (ctx : Lscr.Ctx) (m : PutMode) (fld : Bool) (a : Int) (st : PState) :
+    execI ctx (.op2 0x59 (m.hi + (if fld then 6 else 5))) a st = process0 ctx (modeInfo m fld) a st := by
+  have hkb : ("bi" = "bi" ∨ "bi" = "tri") := Or.inl rfl
+  simp only [execI, bi_lookup_59, hkb, if_true, true_or, (mode_table m fld).1]
+  unfold process
+  cases m <;> cases fld <;> (rw [if_neg (by decide), if_neg (by decide)])
+
+/-- `put v after|before <local>`: `v; <6j>; 59 (hi + 5)` -/
+theorem exec_putloc (ctx : Lscr.Ctx) (m : PutMode) (j : Nat) (x : Node) (hp : ctx.localVars[j]? = some x) (a : Int) (st : PState)
+    (hb : st.bpc = 6) (p : Int) (r : Node) (rest : List Node) (hs : st.stack = .leaf .const (.s (natStr (6 * j))) p :: r :: rest) :
+    execI ctx (.op2 0x59 (m.hi + 5)) a st = .ok { st with stack := rest, stmts := st.stmts ++ [.stmt a (.spAssign a x r m.tag.toList)] } := by
+  have e := exec_59 ctx m false a st
+  simp only [Bool.false_eq_true, if_false] at e
+  rw [e]
+  have hmode := (mode_table m false).2
+  have himpl : (modeInfo m false).impl = "AssignModeLocalVarOpcode" := by cases m <;> rfl
+  unfold process0
+  simp only [himpl, hmode, PState.pop, hs, Node.cls, Node.name, toInt_natStr, Bind.bind, Except.bind, pure, Except.pure, ne_eq, not_true_eq_false, if_false]
+  have hr := recIndex_six { st with stack := r :: rest } j hb
+  simp only [hr, pyGet_some _ _ _ hp, PState.addStmt]
+
+/-- `put v into|after|before field e`: `v; e; 59 (hi + 6)` -/
+theorem exec_putfield (ctx : Lscr.Ctx) (m : PutMode) (a : Int) (st : PState) (x r : Node) (rest : List Node) (hs : st.stack = x :: r :: rest) :
+    execI ctx (.op2 0x59 (m.hi + 6)) a st
+      = .ok { st with stack := rest, stmts := st.stmts ++ [.stmt a (.spAssign a (.unary (S "field") a x) r m.tag.toList)] } := by
+  have e := exec_59 ctx m true a st
+  simp only [if_true] at e
+  rw [e]
+  have hmode := (mode_table m true).2
+  have himpl : (modeInfo m true).impl = "AssignModeFieldOpcode" := by cases m <;> rfl
+  unfold process0
+  simp only [himpl, hmode, PState.pop, hs, Bind.bind, Except.bind, pure, Except.pure, PState.addStmt, fieldOf]
+
+/-- the class of `5a (hi + 5)` (local string) / `5a (hi + 6)` (field) -/
+def putInfo (m : PutMode) (fld : Bool) : Opcodes.OpInfo :=
+  match m, fld with
+  | .into, false => { cls := "PutIntoStringOpcode", impl := "PutIntoStringOpcode", nbytes := 2, kind := "bi", attrs := [] }
+  | .after, false => { cls := "PutAfterStringOpcode", impl := "PutAfterStringOpcode", nbytes := 2, kind := "bi", attrs := [] }
+  | .before, false => { cls := "PutBeforeStringOpcode", impl := "PutBeforeStringOpcode", nbytes := 2, kind := "bi", attrs := [] }
+  | .into, true => { cls := "PutIntoFieldSpOpcode", impl := "PutIntoFieldSpOpcode", nbytes := 2, kind := "bi", attrs := [] }
+  | .after, true => { cls := "PutAfterFieldOpcode", impl := "PutAfterFieldOpcode", nbytes := 2, kind := "bi", attrs := [] }
+  | .before, true => { cls := "PutBeforeFieldOpcode", impl := "PutBeforeFieldOpcode", nbytes := 2, kind := "bi", attrs := [] }
+
+theorem exec_5a (ctx : Lscr.Ctx) (m : PutMode) (fld : Bool) (a : Int) (st : PState) :
+    execI ctx (.op2 0x5a (m.hi + (if fld then 6 else 5))) a st
+      = putChunk ctx (if fld then "field" else "string") m.tag.toList st a := by
+  have hkb : ("bi" = "bi" ∨ "bi" = "tri") := Or.inl rfl
+  have ht : Opcodes.biOpcodes.lookup (0x5a * 256 + (m.hi + (if fld then 6 else 5))) = some (putInfo m fld) := by
+    cases m <;> cases fld <;> rfl
+  simp only [execI, bi_lookup_5a, hkb, if_true, true_or, ht]
+  unfold process
+  cases m <;> cases fld <;> (rw [if_neg (by decide), if_neg (by decide)]; unfold process0; rfl)
+
+/-- `put v … <chunk of field e>`: `v; slots; e; 5a (hi + 6)` -/
+theorem exec_putchunk_field (ctx : Lscr.Ctx) (m : PutMode) (a : Int) (st : PState) (x r : Node) (l : List Node) (hl : l.length = 8)
+    (hn : Named l) (rest : List Node) (hs : st.stack = x :: (l ++ r :: rest)) :
+    execI ctx (.op2 0x5a (m.hi + 6)) a st
+      = .ok { st with stack := rest, stmts := st.stmts ++ [.stmt a (.spAssign a (applyL 4 l (.unary (S "field") a x) a) r m.tag.toList)] } := by
+  have e := exec_5a ctx m true a st
+  simp only [if_true] at e
+  rw [e]
+  simp only [putChunk, if_true, PState.pop, hs, Bind.bind, Except.bind, pure, Except.pure, fieldOf]
+  rw [addModifiers_ok (.unary (S "field") a x) { st with stack := l ++ r :: rest } a l hl hn (r :: rest) rfl]
+  simp only [PState.addStmt]
+
+/-- `put v … <chunk of a local>`: `v; slots; <6j>; 5a (hi + 5)` -/
+theorem exec_putchunk_loc (ctx : Lscr.Ctx) (m : PutMode) (j : Nat) (x : Node) (hp : ctx.localVars[j]? = some x) (a : Int) (st : PState)
+    (hb : st.bpc = 6) (p : Int) (r : Node) (l : List Node) (hl : l.length = 8) (hn : Named l) (rest : List Node)
+    (hs : st.stack = .leaf .const (.s (natStr (6 * j))) p :: (l ++ r :: rest)) :
+    execI ctx (.op2 0x5a (m.hi + 5)) a st
+      = .ok { st with stack := rest, stmts := st.stmts ++ [.stmt a (.spAssign a (applyL 4 l x a) r m.tag.toList)] } := by
+  have e := exec_5a ctx m false a st
+  simp only [Bool.false_eq_true, if_false] at e
+  rw [e]
+  have h1 : ("string" = "field") = False := by decide
+  have h2 : ("string" = "list") = False := by decide
+  simp only [putChunk, h1, h2, if_false, popInt, PState.pop, hs, Node.name, toInt_natStr, Bind.bind, Except.bind, pure, Except.pure]
+  have hr := recIndex_six { st with stack := l ++ r :: rest } j hb
+  simp only [hr, pyGet_some _ _ _ hp]
+  rw [addModifiers_ok x { st with stack := l ++ r :: rest } a l hl hn (r :: rest) rfl]
+  simp only [PState.addStmt]
+
+theorem exec_5b (ctx : Lscr.Ctx) (fld : Bool) (a : Int) (st : PState) :
+    execI ctx (.op2 0x5b (if fld then 6 else 5)) a st = deleteChunk ctx (if fld then "field" else "string") st a := by
+  have hkb : ("bi" = "bi" ∨ "bi" = "tri") := Or.inl rfl
+  cases fld
+  · have ht : Opcodes.biOpcodes.lookup (0x5b * 256 + 5) = some { cls := "DeleteFromStringOpcode", impl := "DeleteFromStringOpcode", nbytes := 2, kind := "bi", attrs := [] } := rfl
+    simp only [execI, bi_lookup_5b, hkb, if_true, true_or, Bool.false_eq_true, if_false, ht]
+    unfold process
+    rw [if_neg (by decide), if_neg (by decide)]; unfold process0; rfl
+  · have ht : Opcodes.biOpcodes.lookup (0x5b * 256 + 6) = some { cls := "DeleteFromFieldOpcode", impl := "DeleteFromFieldOpcode", nbytes := 2, kind := "bi", attrs := [] } := rfl
+    simp only [execI, bi_lookup_5b, hkb, if_true, true_or, ht]
+    unfold process
+    rw [if_neg (by decide), if_neg (by decide)]; unfold process0; rfl
+
+theorem exec_delchunk_field (ctx : Lscr.Ctx) (a : Int) (st : PState) (x : Node) (l : List Node) (hl : l.length = 8)
+    (hn : Named l) (rest : List Node) (hs : st.stack = x :: (l ++ rest)) :
+    execI ctx (.op2 0x5b 6) a st
+      = .ok { st with stack := rest, stmts := st.stmts ++ [.stmt a (.unary (S "delete") a (applyL 4 l (.unary (S "field") a x) a))] } := by
+  have e := exec_5b ctx true a st
+  simp only [if_true] at e
+  rw [e]
+  simp only [deleteChunk, if_true, PState.pop, hs, Bind.bind, Except.bind, pure, Except.pure, fieldOf]
+  rw [addModifiers_ok (.unary (S "field") a x) { st with stack := l ++ rest } a l hl hn rest rfl]
+  simp only [PState.addStmt]
+
+theorem exec_delchunk_loc (ctx : Lscr.Ctx) (j : Nat) (x : Node) (hp : ctx.localVars[j]? = some x) (a : Int) (st : PState)
+    (hb : st.bpc = 6) (p : Int) (l : List Node) (hl : l.length = 8) (hn : Named l) (rest : List Node)
+    (hs : st.stack = .leaf .const (.s (natStr (6 * j))) p :: (l ++ rest)) :
+    execI ctx (.op2 0x5b 5) a st
+      = .ok { st with stack := rest, stmts := st.stmts ++ [.stmt a (.unary (S "delete") a (applyL 4 l x a))] } := by
+  have e := exec_5b ctx false a st
+  simp only [Bool.false_eq_true, if_false] at e
+  rw [e]
+  have h1 : ("string" = "field") = False := by decide
+  have h2 : ("string" = "list") = False := by decide
+  simp only [deleteChunk, h1, h2, if_false, popInt, PState.pop, hs, Node.name, toInt_natStr, Bind.bind, Except.bind, pure, Except.pure]
+  have hr := recIndex_six { st with stack := l ++ rest } j hb
+  simp only [hr, pyGet_some _ _ _ hp]
+  rw [addModifiers_ok x { st with stack := l ++ rest } a l hl hn rest rfl]
+  simp only [PState.addStmt]
+
+theorem exec_hilite (ctx : Lscr.Ctx) (a : Int) (st : PState) (x : Node) (l : List Node) (hl : l.length = 8)
+    (hn : Named l) (rest : List Node) (hs : st.stack = x :: (l ++ rest)) :
+    execI ctx (.op1 0x18) a st
+      = .ok { st with stack := rest, stmts := st.stmts ++ [.stmt a (.unary (S "hilite") a (applyL 4 l (.unary (S "field") a x) a))] } := by
+  have hl' : Opcodes.opcodes.lookup 0x18 = some { cls := "HiliteOpcode", impl := "HiliteOpcode", nbytes := 1, kind := "plain", attrs := [] } := rfl
+  simp only [execI, hl']
+  unfold process0
+  simp only [PState.pop, hs, Bind.bind, Except.bind, pure, Except.pure, fieldOf]
+  rw [addModifiers_ok (.unary (S "field") a x) { st with stack := l ++ rest } a l hl hn rest rfl]
+  simp only [PState.addStmt]
+
 /-- the statement node carries the address of an instruction of its own code -/
 def StmtIn (a len : Nat) (n : Node) : Prop := ∃ p c, n = .stmt p c ∧ (a : Int) ≤ p ∧ p < ((a + len : Nat) : Int)
 
@@ -2237,7 +2395,700 @@ theorem stmtIn_last (a : Nat) (pre : List Instr) (i : Instr) (c : Node) :
   simp only [codeSize]
   omega
 
-/-- **L3**, `set <variable> = e` for the four variable kinds, command calls `f a, b`, `exit` -/
+/-! #### targets of `put` / `delete` / `hilite`: inversion of `lowerTarget`, the slot run, the three statement forms -/
+
+theorem op2c_single (b x : Nat) (s s' : St) (code : List Instr) (h : op2c b x s = .ok (code, s')) : code ≠ [] := by
+  obtain ⟨rfl, _, _⟩ := op2c_ok _ _ _ _ _ h
+  simp
+
+theorem litInstr_ne (k : Nat) (s s' : St) (code : List Instr) (h : litInstr k s = .ok (code, s')) : code ≠ [] := by
+  unfold litInstr at h
+  split at h
+  · simp only [M_pure_ok, Prod.mk.injEq] at h; rw [h.1]; simp
+  · split at h
+    · simp only [M_pure_ok, Prod.mk.injEq] at h; rw [h.1]; simp
+    · simp [Spec.fail] at h
+
+theorem lowerInt_ne (n : Nat) (s s' : St) (code : List Instr) (h : lowerInt n s = .ok (code, s')) : code ≠ [] := by
+  unfold lowerInt at h
+  split at h
+  · simp only [M_pure_ok, Prod.mk.injEq] at h; rw [h.1]; simp
+  · split at h
+    · simp only [M_pure_ok, Prod.mk.injEq] at h; rw [h.1]; simp
+    · split at h
+      · simp only [M_pure_ok, Prod.mk.injEq] at h; rw [h.1]; simp
+      · split at h
+        · simp only [M_bind_ok] at h
+          obtain ⟨k, s2, _, h⟩ := h
+          exact litInstr_ne _ _ _ _ h
+        · simp [Spec.fail] at h
+
+/-- the code of an expression is never empty -/
+theorem lowerExpr_ne_nil (c : Spec.Ctx) (e : Expr) (s0 s1 : St) (code : List Instr) (h : lowerExpr c e s0 = .ok (code, s1)) : code ≠ [] := by
+  cases e with
+  | int n => rw [lowerExpr] at h; exact lowerInt_ne _ _ _ _ h
+  | str v =>
+    rw [lowerExpr] at h
+    simp only [M_bind_ok] at h
+    obtain ⟨k, s2, _, h⟩ := h
+    exact litInstr_ne _ _ _ _ h
+  | float d sc =>
+    rw [lowerExpr] at h
+    simp only [M_bind_ok] at h
+    obtain ⟨k, s2, _, h⟩ := h
+    exact litInstr_ne _ _ _ _ h
+  | sym v =>
+    rw [lowerExpr] at h
+    simp only [M_bind_ok] at h
+    obtain ⟨k, s2, _, h⟩ := h
+    exact op2c_single _ _ _ _ _ h
+  | var k v =>
+    cases k with
+    | loc =>
+      rw [lowerExpr] at h
+      cases ho : c.localOff v with
+      | none => rw [ho] at h; simp [Spec.fail] at h
+      | some o => rw [ho] at h; exact op2c_single _ _ _ _ _ h
+    | param =>
+      rw [lowerExpr] at h
+      cases ho : c.paramOff v with
+      | none => rw [ho] at h; simp [Spec.fail] at h
+      | some o => rw [ho] at h; exact op2c_single _ _ _ _ _ h
+    | glob =>
+      rw [lowerExpr] at h
+      simp only [M_bind_ok] at h
+      obtain ⟨k, s2, _, h⟩ := h
+      exact op2c_single _ _ _ _ _ h
+    | prop =>
+      rw [lowerExpr] at h
+      simp only [M_bind_ok] at h
+      obtain ⟨k, s2, _, h⟩ := h
+      exact op2c_single _ _ _ _ _ h
+  | me =>
+    rw [lowerExpr] at h
+    simp only [M_bind_ok] at h
+    obtain ⟨k, s2, _, h⟩ := h
+    exact op2c_single _ _ _ _ _ h
+  | bin o a b =>
+    rw [lowerExpr] at h
+    simp only [M_bind_ok, M_pure_ok, Prod.mk.injEq] at h
+    obtain ⟨ca, s2, _, cb, s3, _, rfl, _⟩ := h
+    simp
+  | un o a =>
+    rw [lowerExpr] at h
+    simp only [M_bind_ok, M_pure_ok, Prod.mk.injEq] at h
+    obtain ⟨ca, s2, _, rfl, _⟩ := h
+    simp
+  | field a =>
+    rw [lowerExpr] at h
+    simp only [M_bind_ok, M_pure_ok, Prod.mk.injEq] at h
+    obtain ⟨ca, s2, _, rfl, _⟩ := h
+    simp
+  | call f as =>
+    rw [lowerExpr] at h
+    simp only [M_bind_ok] at h
+    obtain ⟨ca, s', ha, cn, s'', hn, h⟩ := h
+    cases hidx : idxOf f c.handlers 0 with
+    | some k =>
+      rw [hidx] at h
+      simp only [M_bind_ok, M_pure_ok, Prod.mk.injEq] at h
+      obtain ⟨cc, s3, hcc, rfl, rfl⟩ := h
+      have := op2c_single _ _ _ _ _ hcc
+      simp [this]
+    | none =>
+      rw [hidx] at h
+      simp only [M_bind_ok, M_pure_ok, Prod.mk.injEq] at h
+      obtain ⟨ni, s3, hni, cc, s4, hcc, rfl, rfl⟩ := h
+      have := op2c_single _ _ _ _ _ hcc
+      simp [this]
+  | mcall o m as =>
+    rw [lowerExpr] at h
+    simp only [M_bind_ok, M_pure_ok, Prod.mk.injEq] at h
+    obtain ⟨i, s2, _, cm, s3, _, ca, s4, _, n, s5, _, ⟨ref, k⟩, s6, _, rfl, _⟩ := h
+    simp
+  | list as =>
+    rw [lowerExpr] at h
+    simp only [M_bind_ok, M_pure_ok, Prod.mk.injEq] at h
+    obtain ⟨ca, s2, _, n, s3, _, rfl, _⟩ := h
+    simp
+  | plist as =>
+    rw [lowerExpr] at h
+    simp only [M_bind_ok, M_pure_ok, Prod.mk.injEq] at h
+    obtain ⟨ca, s2, _, n, s3, _, rfl, _⟩ := h
+    simp
+  | the t k as =>
+    rw [lowerExpr] at h
+    simp only [M_bind_ok, M_pure_ok, Prod.mk.injEq] at h
+    obtain ⟨ca, s2, _, n, s3, _, rfl, _⟩ := h
+    simp
+  | key v =>
+    rw [lowerExpr] at h
+    simp only [M_bind_ok, M_pure_ok, Prod.mk.injEq] at h
+    obtain ⟨i, s2, _, cc, s3, _, rfl, _⟩ := h
+    simp
+  | movie v =>
+    rw [lowerExpr] at h
+    simp only [M_bind_ok] at h
+    obtain ⟨k, s2, _, h⟩ := h
+    exact op2c_single _ _ _ _ _ h
+  | oprop v o =>
+    rw [lowerExpr] at h
+    simp only [M_bind_ok, M_pure_ok, Prod.mk.injEq] at h
+    obtain ⟨co, s2, _, i, s3, _, cc, s4, hcc, rfl, _⟩ := h
+    have := op2c_single _ _ _ _ _ hcc
+    simp [this]
+  | chunk k a b d =>
+    rw [lowerExpr] at h
+    simp only [M_bind_ok] at h
+    obtain ⟨ca, s2, _, cb, s3, _, res, s4, _, h⟩ := h
+    cases res with
+    | none =>
+      simp only [M_bind_ok, M_pure_ok, Prod.mk.injEq] at h
+      obtain ⟨base, s5, _, rfl, _⟩ := h
+      simp
+    | some v =>
+      obtain ⟨sl, base⟩ := v
+      simp only [M_pure_ok, Prod.mk.injEq] at h
+      rw [h.1]; simp
+
+
+/-- what a target chain bottoms out in -/
+def tgBase : Expr → Expr
+  | .chunk _ _ _ d => tgBase d
+  | e => e
+
+/-- result of running the slot codes (ranks above `r`) of a put / delete / hilite target: the slot pairs `l`; whatever node `z`
+    is the image of the chain's bottom, the slice instruction's modifiers applied to it give the image of the whole target -/
+def SlotRun (G hs : List Spec.Name) (tgt : Expr) (r : Nat) (ctx : Lscr.Ctx) (ad : Nat) (code : List Instr) (st : PState) : Prop :=
+  ∃ (l : List Node) (gv' : List Node), l.length = 2 * (4 - r) ∧ Named l ∧ GvNext G st.gvars gv' ∧
+    runIs ctx ad code st = .ok { st with stack := l ++ st.stack, gvars := gv' } ∧
+    ∀ idx z, EmbH hs (tgBase tgt) z → EmbH hs tgt (applyL 4 l z idx)
+
+theorem slot_nil (G hs : List Spec.Name) (e : Expr) (he : tgBase e = e) (r : Nat) (ctx : Lscr.Ctx) (ad : Nat) (st : PState)
+    (hgv : GvOk G st.gvars) : SlotRun G hs e r ctx ad (List.replicate (2 * (4 - r)) (Instr.op1 0x03)) st := by
+  refine ⟨zs ad (2 * (4 - r)), st.gvars, zs_length _ _, allZ_named _ (zs_allZ _ _), GvNext.refl hgv, ?_, ?_⟩
+  · rw [run_zeros]
+  · intro idx z hz
+    rw [applyL_zeros _ _ _ _ (zs_allZ _ _)]
+    rw [he] at hz
+    exact hz
+
+theorem slot_core (G hs : List Spec.Name) (k : ChunkKind) (a b d : Expr) (r : Nat) (hr : r < k.rank) (hfa : FragE a = true)
+    (hza : isZero a = false) (hfb : FragE b = true) (ctx : Lscr.Ctx) (ca cb tcode : List Instr)
+    (PA : ∀ (ad : Nat) (st : PState), st.bpc = 6 → GvOk G st.gvars → Pushed G hs a ctx ad ca st)
+    (PB : ∀ (ad : Nat) (st : PState), st.bpc = 6 → GvOk G st.gvars → Pushed G hs b ctx ad cb st)
+    (PT : ∀ (ad : Nat) (st : PState), st.bpc = 6 → GvOk G st.gvars → SlotRun G hs d k.rank ctx ad tcode st)
+    (ad : Nat) (st : PState) (hb : st.bpc = 6) (hgv : GvOk G st.gvars) :
+    SlotRun G hs (.chunk k a b d) r ctx ad (List.replicate (2 * (k.rank - 1 - r)) (Instr.op1 0x03) ++ (ca ++ cb) ++ tcode) st := by
+  obtain ⟨hk1, hk4⟩ := rank_le4 k
+  let n0 := 2 * (k.rank - 1 - r)
+  have r0 := run_zeros ctx n0 ad st
+  obtain ⟨na, gv1, hemba, hgv1, hr1⟩ := PA (ad + n0) { st with stack := zs ad n0 ++ st.stack } hb hgv
+  obtain ⟨nb, gv2, hembb, hgv2, hr2⟩ := PB (ad + n0 + codeSize ca) { st with stack := na :: (zs ad n0 ++ st.stack), gvars := gv1 } hb hgv1.1
+  obtain ⟨lt, gv3, hlen, hnamed, hgv3, hr3, himg⟩ := PT (ad + n0 + codeSize ca + codeSize cb)
+    { st with stack := nb :: na :: (zs ad n0 ++ st.stack), gvars := gv2 } hb hgv2.1
+  obtain ⟨sn, hsn, hsz⟩ := embH_name_zero hs a na hfa hemba
+  obtain ⟨en, hen, hez⟩ := embH_name_zero hs b nb hfb hembb
+  have hsn0 : sn ≠ .s (S "0") := fun e => by rw [hsz.mp e] at hza; cases hza
+  refine ⟨lt ++ ([nb, na] ++ zs ad n0), gv3, ?_, ?_, (hgv1.trans hgv2).trans hgv3, ?_, ?_⟩
+  · simp only [List.length_append, hlen, List.length_cons, List.length_nil, zs_length, n0]
+    omega
+  · intro n hn
+    simp only [List.mem_append, List.mem_cons, List.mem_nil_iff, or_false] at hn
+    rcases hn with hn | (rfl | rfl) | hn
+    · exact hnamed n hn
+    · exact ⟨_, hen⟩
+    · exact ⟨_, hsn⟩
+    · exact allZ_named _ (zs_allZ _ _) n hn
+  · rw [runIs_append, runIs_append, r0]
+    simp only [Except.bind, codeSize_zeros]
+    rw [runIs_append, hr1]
+    simp only [Except.bind]
+    rw [hr2]
+    simp only [Except.bind, codeSize_append, codeSize_zeros]
+    have e1 : ad + (n0 + (codeSize ca + codeSize cb)) = ad + n0 + codeSize ca + codeSize cb := by omega
+    rw [e1, hr3]
+    simp [List.append_assoc]
+  · intro idx z hz
+    rw [applyL_append lt ([nb, na] ++ zs ad n0) 4 (4 - k.rank) z idx hlen]
+    have e4 : 4 - (4 - k.rank) = k.rank := by omega
+    rw [e4]
+    simp only [List.cons_append, List.nil_append, applyL]
+    rw [applyL_zeros _ _ _ _ (zs_allZ _ _)]
+    simp only [stepN, hsn, hen, hsn0, ne_eq, not_false_eq_true, if_true, kindOf_rank]
+    refine ⟨idx, na, _, _, rfl, hemba, ?_, himg idx z (by simpa [tgBase] using hz)⟩
+    cases hzb : isZero b with
+    | true => left; exact ⟨rfl, by rw [if_neg (by rw [hez.mpr hzb]; simp)]⟩
+    | false =>
+      right
+      have : en ≠ .s (S "0") := fun e => by rw [hez.mp e] at hzb; cases hzb
+      exact ⟨rfl, by rw [if_pos this]; exact hembb⟩
+
+/-- what the lowering of the slot part of a target guarantees -/
+def TgtOK (c : Spec.Ctx) (tgt : Expr) (r : Nat) (s0 s1 : St) (sl : Slots) : Prop :=
+  Ext s0 s1 ∧ Above r sl ∧ (∀ i ∈ slotsFrom sl r, i.opc ≠ 153) ∧
+    ∀ (sF : St) (ctx : Lscr.Ctx), Ext s1 sF → Rel c sF ctx → ∀ (G : List Spec.Name), (∀ g ∈ tgt.vars .glob, g ∈ G) →
+      ∀ (ad : Nat) (st : PState), st.bpc = 6 → GvOk G st.gvars → SlotRun G c.handlers tgt r ctx ad (slotsFrom sl r) st
+
+theorem tgt_nil (c : Spec.Ctx) (e : Expr) (he : tgBase e = e) (r : Nat) (s : St) : TgtOK c e r s s [] := by
+  refine ⟨Ext.refl _, (fun x hx => absurd hx (List.not_mem_nil)), ?_, ?_⟩
+  · intro i hi
+    rw [slotsFrom_nil] at hi
+    obtain ⟨_, rfl⟩ := List.mem_replicate.mp hi; simp [Instr.opc]
+  · intro sF ctx _ _ G _ ad st _ hgv
+    rw [slotsFrom_nil]
+    exact slot_nil G c.handlers e he r ctx ad st hgv
+
+theorem tgt_cons (c : Spec.Ctx) (k : ChunkKind) (a b d : Expr) (r : Nat) (hr : r < k.rank) (hfa : FragE a = true)
+    (hza : isZero a = false) (hfb : FragE b = true) (s0 sa sb s1 : St) (ca cb : List Instr) (sl' : Slots)
+    (SA : StackOK c a s0 sa ca) (SB : StackOK c b sa sb cb) (ST : TgtOK c d k.rank sb s1 sl') :
+    TgtOK c (.chunk k a b d) r s0 s1 ((k.rank, ca, cb) :: sl') := by
+  obtain ⟨hexta, hopa, hruna⟩ := SA
+  obtain ⟨hextb, hopb, hrunb⟩ := SB
+  obtain ⟨hextt, habove, hopt, hrunt⟩ := ST
+  have hcode : slotsFrom ((k.rank, ca, cb) :: sl') r
+      = List.replicate (2 * (k.rank - 1 - r)) (Instr.op1 0x03) ++ (ca ++ cb) ++ slotsFrom sl' k.rank :=
+    slotsFrom_cons k ca cb sl' r hr habove
+  refine ⟨(hexta.trans hextb).trans hextt, ?_, ?_, ?_⟩
+  · intro x hx
+    rcases List.mem_cons.mp hx with rfl | hx
+    · exact hr
+    · have := habove x hx; omega
+  · intro i hi
+    rw [hcode] at hi
+    simp only [List.mem_append, List.mem_replicate] at hi
+    rcases hi with (⟨_, rfl⟩ | hi | hi) | hi
+    · simp [Instr.opc]
+    · exact hopa i hi
+    · exact hopb i hi
+    · exact hopt i hi
+  · intro sF ctx hF hrel G hG ad st hb hgv
+    have hG3 : ∀ g ∈ a.vars .glob ++ b.vars .glob ++ d.vars .glob, g ∈ G := by simpa [Expr.vars] using hG
+    rw [hcode]
+    exact slot_core G c.handlers k a b d r hr hfa hza hfb ctx ca cb (slotsFrom sl' k.rank)
+      (fun ad' st' hb' hgv' => hruna sF ctx ((hextb.trans hextt).trans hF) hrel G (fun g hg => hG3 g (by simp [hg])) ad' st' hb' hgv')
+      (fun ad' st' hb' hgv' => hrunb sF ctx (hextt.trans hF) hrel G (fun g hg => hG3 g (by simp [hg])) ad' st' hb' hgv')
+      (fun ad' st' hb' hgv' => hrunt sF ctx hF hrel G (fun g hg => hG3 g (by simp [hg])) ad' st' hb' hgv')
+      ad st hb hgv
+
+/-- what a target chain bottoms out in, as the scheme classifies it -/
+inductive BaseOK (c : Spec.Ctx) : Expr → Base → St → St → Prop
+  | field (e : Expr) (ce : List Instr) (s0 s1 : St) : FragE e = true → StackOK c e s0 s1 ce → BaseOK c (.field e) (.field ce) s0 s1
+  | loc (v : Spec.Name) (o : Nat) (s : St) : c.localOff v = some o → BaseOK c (.var .loc v) (.loc o) s s
+
+theorem go_ok (c : Spec.Ctx) : ∀ (d : Expr) (r : Nat), FragTg r d = true → ∀ (sl : Slots) (s0 s1 : St) (code : List Instr) (base : Base),
+    lowerTarget.go c r sl d s0 = .ok ((code, base), s1) →
+    ∃ sl' sm, code = slotCode (sl ++ sl') ∧ TgtOK c d r s0 sm sl' ∧ BaseOK c (tgBase d) base sm s1
+  | .chunk k a b d, r, hf, sl, s0, s1, code, base, h => by
+    simp only [FragTg, Bool.and_eq_true, decide_eq_true_eq, Bool.not_eq_true'] at hf
+    obtain ⟨⟨⟨⟨hr, hfa⟩, hza⟩, hfb⟩, hfd⟩ := hf
+    rw [lowerTarget.go] at h
+    simp only [gt_iff_lt, hr, if_true, M_bind_ok] at h
+    obtain ⟨ca, sa, ha, cb, sb, hb, h⟩ := h
+    obtain ⟨sl', sm, rfl, hT, hB⟩ := go_ok c d k.rank hfd _ _ _ _ _ h
+    refine ⟨(k.rank, ca, cb) :: sl', sm, by simp, ?_, by simpa [tgBase] using hB⟩
+    exact tgt_cons c k a b d r hr hfa hza hfb s0 sa sb sm ca cb sl' (stack_lemma a hfa c _ _ _ ha) (stack_lemma b hfb c _ _ _ hb) hT
+  | .field e, r, hf, sl, s0, s1, code, base, h => by
+    simp only [FragTg] at hf
+    rw [lowerTarget.go] at h
+    simp only [M_bind_ok, M_pure_ok, Prod.mk.injEq] at h
+    obtain ⟨ce, s2, he, ⟨rfl, rfl⟩, rfl⟩ := h
+    exact ⟨[], s0, by simp, tgt_nil c _ rfl r s0, BaseOK.field e ce s0 _ hf (stack_lemma e hf c _ _ _ he)⟩
+  | .var .loc v, r, hf, sl, s0, s1, code, base, h => by
+    rw [lowerTarget.go] at h
+    cases ho : c.localOff v with
+    | none => rw [ho] at h; simp [Spec.fail] at h
+    | some o =>
+      rw [ho] at h
+      simp only [M_pure_ok, Prod.mk.injEq] at h
+      obtain ⟨⟨rfl, rfl⟩, rfl⟩ := h
+      exact ⟨[], _, by simp, tgt_nil c _ rfl r _, BaseOK.loc v o _ ho⟩
+  | .var .param _, _, hf, _, _, _, _, _, _ => by simp [FragTg] at hf
+  | .var .glob _, _, hf, _, _, _, _, _, _ => by simp [FragTg] at hf
+  | .var .prop _, _, hf, _, _, _, _, _, _ => by simp [FragTg] at hf
+  | .int _, _, hf, _, _, _, _, _, _ => by simp [FragTg] at hf
+  | .str _, _, hf, _, _, _, _, _, _ => by simp [FragTg] at hf
+  | .float _ _, _, hf, _, _, _, _, _, _ => by simp [FragTg] at hf
+  | .sym _, _, hf, _, _, _, _, _, _ => by simp [FragTg] at hf
+  | .me, _, hf, _, _, _, _, _, _ => by simp [FragTg] at hf
+  | .bin _ _ _, _, hf, _, _, _, _, _, _ => by simp [FragTg] at hf
+  | .un _ _, _, hf, _, _, _, _, _, _ => by simp [FragTg] at hf
+  | .call _ _, _, hf, _, _, _, _, _, _ => by simp [FragTg] at hf
+  | .mcall _ _ _, _, hf, _, _, _, _, _, _ => by simp [FragTg] at hf
+  | .list _, _, hf, _, _, _, _, _, _ => by simp [FragTg] at hf
+  | .plist _, _, hf, _, _, _, _, _, _ => by simp [FragTg] at hf
+  | .the _ _ _, _, hf, _, _, _, _, _, _ => by simp [FragTg] at hf
+  | .key _, _, hf, _, _, _, _, _, _ => by simp [FragTg] at hf
+  | .movie _, _, hf, _, _, _, _, _, _ => by simp [FragTg] at hf
+  | .oprop _ _, _, hf, _, _, _, _, _, _ => by simp [FragTg] at hf
+
+
+theorem tgBase_vars (vk : VarKind) : ∀ (d : Expr) (g : Spec.Name), g ∈ (tgBase d).vars vk → g ∈ d.vars vk
+  | .chunk k a b d, g, h => by
+    have := tgBase_vars vk d g (by simpa [tgBase] using h)
+    simp [Expr.vars, this]
+  | .field e, g, h => h
+  | .var _ _, g, h => h
+  | .int _, g, h => h
+  | .str _, g, h => h
+  | .float _ _, g, h => h
+  | .sym _, g, h => h
+  | .me, g, h => h
+  | .bin _ _ _, g, h => h
+  | .un _ _, g, h => h
+  | .call _ _, g, h => h
+  | .mcall _ _ _, g, h => h
+  | .list _, g, h => h
+  | .plist _, g, h => h
+  | .the _ _ _, g, h => h
+  | .key _, g, h => h
+  | .movie _, g, h => h
+  | .oprop _ _, g, h => h
+
+theorem slotCode_cons_ne (k : ChunkKind) (ca cb : List Instr) (sl' : Slots) (habove : Above k.rank sl') (hca : ca ≠ []) :
+    slotCode ((k.rank, ca, cb) :: sl') ≠ [] := by
+  have h0 : slotCode ((k.rank, ca, cb) :: sl') = slotsFrom ((k.rank, ca, cb) :: sl') 0 := rfl
+  rw [h0, slotsFrom_cons k ca cb sl' 0 (rank_le4 k).1 habove]
+  simp [hca]
+
+/-- inversion of `lowerTarget` on the fragment: a chunk chain (non-empty slot code) or a bare `field e` / local -/
+theorem target_ok (c : Spec.Ctx) (lv : Expr) (hf : FragTg 0 lv = true) (s0 s1 : St) (slots : List Instr) (base : Base)
+    (h : lowerTarget c lv s0 = .ok ((slots, base), s1)) :
+    (isChunkE lv = true ∧ ∃ sl sm i rest, slots = i :: rest ∧ i :: rest = slotCode sl ∧ TgtOK c lv 0 s0 sm sl ∧ BaseOK c (tgBase lv) base sm s1) ∨
+    (isChunkE lv = false ∧ slots = [] ∧ BaseOK c lv base s0 s1) := by
+  cases lv with
+  | chunk k a b d =>
+    left
+    simp only [FragTg, Bool.and_eq_true, decide_eq_true_eq, Bool.not_eq_true'] at hf
+    obtain ⟨⟨⟨⟨hr, hfa⟩, hza⟩, hfb⟩, hfd⟩ := hf
+    rw [lowerTarget] at h
+    simp only [M_bind_ok] at h
+    obtain ⟨ca, sa, ha, cb, sb, hb, h⟩ := h
+    obtain ⟨sl', sm, rfl, hT, hB⟩ := go_ok c d k.rank hfd _ _ _ _ _ h
+    have hT' := tgt_cons c k a b d 0 hr hfa hza hfb s0 sa sb sm ca cb sl' (stack_lemma a hfa c _ _ _ ha) (stack_lemma b hfb c _ _ _ hb) hT
+    have hne := slotCode_cons_ne k ca cb sl' hT.2.1 (lowerExpr_ne_nil c a _ _ _ ha)
+    have hs : [(k.rank, ca, cb)] ++ sl' = (k.rank, ca, cb) :: sl' := rfl
+    rw [hs]
+    obtain ⟨i, rest, hir⟩ := List.exists_cons_of_ne_nil hne
+    exact ⟨rfl, _, sm, i, rest, hir, hir.symm, hT', by simpa [tgBase] using hB⟩
+  | field e =>
+    right
+    simp only [FragTg] at hf
+    rw [lowerTarget] at h
+    simp only [M_bind_ok, M_pure_ok, Prod.mk.injEq] at h
+    obtain ⟨ce, s2, he, ⟨rfl, rfl⟩, rfl⟩ := h
+    exact ⟨rfl, rfl, BaseOK.field e ce s0 _ hf (stack_lemma e hf c _ _ _ he)⟩
+  | var k v =>
+    cases k with
+    | loc =>
+      right
+      rw [lowerTarget] at h
+      cases ho : c.localOff v with
+      | none => rw [ho] at h; simp [Spec.fail] at h
+      | some o =>
+        rw [ho] at h
+        simp only [M_pure_ok, Prod.mk.injEq] at h
+        obtain ⟨⟨rfl, rfl⟩, rfl⟩ := h
+        exact ⟨rfl, rfl, BaseOK.loc v o _ ho⟩
+    | _ => simp [FragTg] at hf
+  | _ => simp [FragTg] at hf
+
+/-- slots, then the field's expression: the stack the put / delete / hilite opcode of a FIELD target finds -/
+theorem tgt_field_run (c : Spec.Ctx) (lv e : Expr) (s' sm s2 : St) (sl : Slots) (ce : List Instr) (hT : TgtOK c lv 0 s' sm sl)
+    (hbase : tgBase lv = .field e) (hS : StackOK c e sm s2 ce) :
+    Ext s' s2 ∧ (∀ i ∈ slotCode sl ++ ce, i.opc ≠ 153) ∧
+    ∀ (sF : St) (ctx : Lscr.Ctx), Ext s2 sF → Rel c sF ctx → ∀ (G : List Spec.Name), (∀ g ∈ lv.vars .glob, g ∈ G) →
+      ∀ (ad : Nat) (st : PState), st.bpc = 6 → GvOk G st.gvars →
+        ∃ l x gv', l.length = 8 ∧ Named l ∧ GvNext G st.gvars gv' ∧
+          runIs ctx ad (slotCode sl ++ ce) st = .ok { st with stack := x :: (l ++ st.stack), gvars := gv' } ∧
+          ∀ idx, Emb lv (applyL 4 l (.unary (S "field") idx x) idx) := by
+  obtain ⟨hext1, _, hop1, hrun1⟩ := hT
+  obtain ⟨hext2, hop2, hrun2⟩ := hS
+  refine ⟨hext1.trans hext2, ?_, ?_⟩
+  · intro i hi
+    rcases List.mem_append.mp hi with hi | hi
+    · exact hop1 i hi
+    · exact hop2 i hi
+  intro sF ctx hF hrel G hG ad st hb hgv
+  obtain ⟨l, gv1, hlen, hnamed, hgv1, hr1, himg⟩ := hrun1 sF ctx (hext2.trans hF) hrel G hG ad st hb hgv
+  have hGe : ∀ g ∈ e.vars .glob, g ∈ G := fun g hg => hG g (tgBase_vars .glob lv g (by rw [hbase]; exact hg))
+  obtain ⟨x, gv2, hembx, hgv2, hr2⟩ := hrun2 sF ctx hF hrel G hGe (ad + codeSize (slotCode sl))
+    { st with stack := l ++ st.stack, gvars := gv1 } hb hgv1.1
+  refine ⟨l, x, gv2, by simpa using hlen, hnamed, hgv1.trans hgv2, ?_, ?_⟩
+  · rw [runIs_append]
+    have : slotCode sl = slotsFrom sl 0 := rfl
+    rw [this, hr1]
+    simp only [Except.bind]
+    exact hr2
+  · intro idx
+    exact EmbH.toEmb _ _ _ (himg idx _ (by rw [hbase]; exact ⟨idx, x, rfl, hembx⟩))
+
+/-- slots, then the record offset of the local: the stack the put / delete opcode of a LOCAL target finds -/
+theorem tgt_loc_run (c : Spec.Ctx) (lv : Expr) (v : Spec.Name) (o : Nat) (s' sm s2 : St) (sl : Slots) (ci : List Instr)
+    (hT : TgtOK c lv 0 s' sm sl) (hbase : tgBase lv = .var .loc v) (ho : c.localOff v = some o) (hi : lowerInt o sm = .ok (ci, s2)) :
+    Ext s' s2 ∧ (∀ i ∈ slotCode sl ++ ci, i.opc ≠ 153) ∧
+    ∀ (sF : St) (ctx : Lscr.Ctx), Ext s2 sF → Rel c sF ctx → ∀ (G : List Spec.Name), (∀ g ∈ lv.vars .glob, g ∈ G) →
+      ∀ (ad : Nat) (st : PState), st.bpc = 6 → GvOk G st.gvars →
+        ∃ l j xv p gv', l.length = 8 ∧ Named l ∧ GvNext G st.gvars gv' ∧ ctx.localVars[j]? = some xv ∧
+          runIs ctx ad (slotCode sl ++ ci) st = .ok { st with stack := .leaf .const (.s (natStr (6 * j))) p :: (l ++ st.stack), gvars := gv' } ∧
+          ∀ idx, Emb lv (applyL 4 l xv idx) := by
+  obtain ⟨hext1, _, hop1, hrun1⟩ := hT
+  obtain ⟨hext2, hop2, hrun2⟩ := lowerInt_ok o sm s2 ci hi
+  refine ⟨hext1.trans hext2, ?_, ?_⟩
+  · intro i hi
+    rcases List.mem_append.mp hi with hi | hi
+    · exact hop1 i hi
+    · exact hop2 i hi
+  intro sF ctx hF hrel G hG ad st hb hgv
+  obtain ⟨l, gv1, hlen, hnamed, hgv1, hr1, himg⟩ := hrun1 sF ctx (hext2.trans hF) hrel G hG ad st hb hgv
+  unfold Spec.Ctx.localOff at ho
+  cases hidx : idxOf v c.locals 0 with
+  | none => rw [hidx] at ho; cases ho
+  | some j =>
+    rw [hidx] at ho
+    simp only [Option.map_some, Option.some.injEq] at ho
+    subst ho
+    obtain ⟨p, hp⟩ := hrel.locals v j hidx
+    obtain ⟨i, rfl, hex⟩ := hrun2 c sF ctx hF hrel ((ad + codeSize (slotCode sl) : Nat) : Int) { st with stack := l ++ st.stack, gvars := gv1 } hb
+    refine ⟨l, j, _, ((ad + codeSize (slotCode sl) : Nat) : Int), gv1, by simpa using hlen, hnamed, hgv1, hp, ?_, ?_⟩
+    · rw [runIs_append]
+      have : slotCode sl = slotsFrom sl 0 := rfl
+      rw [this, hr1]
+      simp only [Except.bind]
+      rw [runIs_single, ← this, hex]
+    · intro idx
+      exact EmbH.toEmb _ _ _ (himg idx _ (by rw [hbase]; exact ⟨p, rfl⟩))
+
+
+theorem hi_opc (b x : Nat) (h : b ≠ 153) : (Instr.op2 b x).opc ≠ 153 := by simpa [Instr.opc] using h
+
+theorem stmt_put (m : PutMode) (v lv : Expr) (hf : FragS (.put m v lv) = true) (c : Spec.Ctx) (s0 s1 : St) (cs : List CStmt)
+    (h : lowerStmt c (.put m v lv) s0 = .ok (cs, s1)) :
+    Ext s0 s1 ∧ ∃ code, cs = [.code code] ∧ (∀ i ∈ code, i.opc ≠ 153) ∧
+    ∀ (sF : St) (ctx : Lscr.Ctx), Ext s1 sF → Rel c sF ctx → ∀ (G : List Spec.Name), (∀ g ∈ (Stmt.put m v lv).vars .glob, g ∈ G) →
+      (∀ v' ∈ (Stmt.put m v lv).vars .prop, ctx.props.contains v' = true) →
+      ∀ (a : Nat) (st : PState), st.bpc = 6 → GvOk G st.gvars → Stepped G c.handlers (.put m v lv) ctx a code st := by
+  simp only [FragS, Bool.and_eq_true] at hf
+  obtain ⟨⟨hfv, hft⟩, _⟩ := hf
+  rw [lowerStmt] at h
+  simp only [M_bind_ok] at h
+  obtain ⟨cv, s', hv, ⟨slots, base⟩, s'', ht, h⟩ := h
+  obtain ⟨hextv, hopv, hrunv⟩ := stack_lemma v hfv c s0 _ cv hv
+  have hGv : ∀ G : List Spec.Name, (∀ g ∈ (Stmt.put m v lv).vars .glob, g ∈ G) → ∀ g ∈ v.vars .glob, g ∈ G :=
+    fun G hG g hg => hG g (by simp [Stmt.vars, hg])
+  have hGl : ∀ G : List Spec.Name, (∀ g ∈ (Stmt.put m v lv).vars .glob, g ∈ G) → ∀ g ∈ lv.vars .glob, g ∈ G :=
+    fun G hG g hg => hG g (by simp [Stmt.vars, hg])
+  rcases target_ok c lv hft _ _ _ _ ht with ⟨_, sl, sm, i0, rest0, rfl, hsl, hT, hB⟩ | ⟨hnc, rfl, hB⟩
+  · -- a chunk target: 5a
+    generalize hbe : tgBase lv = be at hB
+    cases hB with
+    | field e ce _ _ hfe hS =>
+      simp only [M_pure_ok, Prod.mk.injEq] at h
+      obtain ⟨rfl, rfl⟩ := h
+      rw [hsl]
+      obtain ⟨hext2, hop2, hrun2⟩ := tgt_field_run c lv e s' sm _ sl ce hT hbe hS
+      refine ⟨hextv.trans hext2, _, rfl, ?_, ?_⟩
+      · intro i hi
+        simp only [List.append_assoc, List.mem_append, List.mem_singleton] at hi
+        rcases hi with hi | hi | hi | rfl
+        · exact hopv i hi
+        · exact hop2 i (List.mem_append_left _ hi)
+        · exact hop2 i (List.mem_append_right _ hi)
+        · simp [Instr.opc]
+      intro sF ctx hF hrel G hG hP a st hb hgv
+      obtain ⟨nv, gv1, hemb, hgv1, hr1⟩ := hrunv sF ctx (hext2.trans hF) hrel G (hGv G hG) a st hb hgv
+      obtain ⟨l, x, gv2, hlen, hnamed, hgv2, hr2, himg⟩ := hrun2 sF ctx hF hrel G (hGl G hG) (a + codeSize cv)
+        { st with stack := nv :: st.stack, gvars := gv1 } hb hgv1.1
+      have hcode : cv ++ slotCode sl ++ ce ++ [Instr.op2 0x5a (m.hi + 6)] = (cv ++ (slotCode sl ++ ce)) ++ [Instr.op2 0x5a (m.hi + 6)] := by simp
+      rw [hcode]
+      refine ⟨.stmt ((a + codeSize (cv ++ (slotCode sl ++ ce)) : Nat) : Int) (.spAssign ((a + codeSize (cv ++ (slotCode sl ++ ce)) : Nat) : Int)
+          (applyL 4 l (.unary (S "field") ((a + codeSize (cv ++ (slotCode sl ++ ce)) : Nat) : Int) x) ((a + codeSize (cv ++ (slotCode sl ++ ce)) : Nat) : Int)) nv m.tag.toList),
+        gv2, ⟨_, _, _, nv, rfl, himg _, hemb⟩, PlainStmt.sp _ _ _ _ _, stmtIn_last a (cv ++ (slotCode sl ++ ce)) _ _, hgv1.trans hgv2, ?_⟩
+      rw [runIs_append, runIs_append, hr1]
+      simp only [Except.bind]
+      rw [hr2]
+      simp only [Except.bind]
+      rw [runIs_single, exec_putchunk_field ctx m _ _ x nv l hlen hnamed st.stack rfl]
+    | loc v' o _ ho =>
+      simp only [M_bind_ok, M_pure_ok, Prod.mk.injEq] at h
+      obtain ⟨ci, s3, hi, rfl, rfl⟩ := h
+      rw [hsl]
+      obtain ⟨hext2, hop2, hrun2⟩ := tgt_loc_run c lv v' o s' _ _ sl ci hT hbe ho hi
+      refine ⟨hextv.trans hext2, _, rfl, ?_, ?_⟩
+      · intro i hi
+        simp only [List.append_assoc, List.mem_append, List.mem_singleton] at hi
+        rcases hi with hi | hi | hi | rfl
+        · exact hopv i hi
+        · exact hop2 i (List.mem_append_left _ hi)
+        · exact hop2 i (List.mem_append_right _ hi)
+        · simp [Instr.opc]
+      intro sF ctx hF hrel G hG hP a st hb hgv
+      obtain ⟨nv, gv1, hemb, hgv1, hr1⟩ := hrunv sF ctx (hext2.trans hF) hrel G (hGv G hG) a st hb hgv
+      obtain ⟨l, j, xv, p, gv2, hlen, hnamed, hgv2, hp, hr2, himg⟩ := hrun2 sF ctx hF hrel G (hGl G hG) (a + codeSize cv)
+        { st with stack := nv :: st.stack, gvars := gv1 } hb hgv1.1
+      have hcode : cv ++ slotCode sl ++ ci ++ [Instr.op2 0x5a (m.hi + 5)] = (cv ++ (slotCode sl ++ ci)) ++ [Instr.op2 0x5a (m.hi + 5)] := by simp
+      rw [hcode]
+      refine ⟨.stmt ((a + codeSize (cv ++ (slotCode sl ++ ci)) : Nat) : Int) (.spAssign ((a + codeSize (cv ++ (slotCode sl ++ ci)) : Nat) : Int)
+          (applyL 4 l xv ((a + codeSize (cv ++ (slotCode sl ++ ci)) : Nat) : Int)) nv m.tag.toList),
+        gv2, ⟨_, _, _, nv, rfl, himg _, hemb⟩, PlainStmt.sp _ _ _ _ _, stmtIn_last a (cv ++ (slotCode sl ++ ci)) _ _, hgv1.trans hgv2, ?_⟩
+      rw [runIs_append, runIs_append, hr1]
+      simp only [Except.bind]
+      rw [hr2]
+      simp only [Except.bind]
+      rw [runIs_single, exec_putchunk_loc ctx m j xv hp _ { st with stack := .leaf .const (.s (natStr (6 * j))) p :: (l ++ nv :: st.stack), gvars := gv2 } hb p nv l hlen hnamed st.stack rfl]
+  · -- a bare target: 59
+    cases hB with
+    | field e ce _ _ hfe hS =>
+      simp only [M_pure_ok, Prod.mk.injEq] at h
+      obtain ⟨rfl, rfl⟩ := h
+      obtain ⟨hext2, hop2, hrun2⟩ := hS
+      refine ⟨hextv.trans hext2, _, rfl, ?_, ?_⟩
+      · intro i hi
+        simp only [List.append_assoc, List.mem_append, List.mem_singleton] at hi
+        rcases hi with hi | hi | rfl
+        · exact hopv i hi
+        · exact hop2 i hi
+        · simp [Instr.opc]
+      intro sF ctx hF hrel G hG hP a st hb hgv
+      obtain ⟨nv, gv1, hemb, hgv1, hr1⟩ := hrunv sF ctx (hext2.trans hF) hrel G (hGv G hG) a st hb hgv
+      obtain ⟨x, gv2, hembx, hgv2, hr2⟩ := hrun2 sF ctx hF hrel G (by simpa [Expr.vars] using hGl G hG) (a + codeSize cv)
+        { st with stack := nv :: st.stack, gvars := gv1 } hb hgv1.1
+      refine ⟨.stmt ((a + codeSize (cv ++ ce) : Nat) : Int) (.spAssign ((a + codeSize (cv ++ ce) : Nat) : Int) (.unary (S "field") ((a + codeSize (cv ++ ce) : Nat) : Int) x) nv m.tag.toList),
+        gv2, ⟨_, _, _, nv, rfl, ⟨_, x, rfl, EmbH.toEmb _ _ _ hembx⟩, hemb⟩, PlainStmt.sp _ _ _ _ _, stmtIn_last a (cv ++ ce) _ _, hgv1.trans hgv2, ?_⟩
+      rw [runIs_append, runIs_append, hr1]
+      simp only [Except.bind]
+      rw [hr2]
+      simp only [Except.bind]
+      rw [runIs_single, exec_putfield ctx m _ _ x nv st.stack rfl]
+    | loc v' o _ ho =>
+      by_cases hm : m = .into
+      · simp [hm, Spec.fail] at h
+      · simp only [hm, if_false, M_bind_ok, M_pure_ok, Prod.mk.injEq] at h
+        obtain ⟨ci, s3, hi, rfl, rfl⟩ := h
+        obtain ⟨hext2, hop2, hrun2⟩ := lowerInt_ok o _ _ ci hi
+        refine ⟨hextv.trans hext2, _, rfl, ?_, ?_⟩
+        · intro i hi
+          simp only [List.append_assoc, List.mem_append, List.mem_singleton] at hi
+          rcases hi with hi | hi | rfl
+          · exact hopv i hi
+          · exact hop2 i hi
+          · simp [Instr.opc]
+        intro sF ctx hF hrel G hG hP a st hb hgv
+        obtain ⟨nv, gv1, hemb, hgv1, hr1⟩ := hrunv sF ctx (hext2.trans hF) hrel G (hGv G hG) a st hb hgv
+        unfold Spec.Ctx.localOff at ho
+        cases hidx : idxOf v' c.locals 0 with
+        | none => rw [hidx] at ho; cases ho
+        | some j =>
+          rw [hidx] at ho
+          simp only [Option.map_some, Option.some.injEq] at ho
+          subst ho
+          obtain ⟨p, hp⟩ := hrel.locals v' j hidx
+          obtain ⟨i, rfl, hex⟩ := hrun2 c sF ctx hF hrel ((a + codeSize cv : Nat) : Int) { st with stack := nv :: st.stack, gvars := gv1 } hb
+          refine ⟨.stmt ((a + codeSize (cv ++ [i]) : Nat) : Int) (.spAssign ((a + codeSize (cv ++ [i]) : Nat) : Int) (.leaf .localVar (.s v') p) nv m.tag.toList),
+            gv1, ⟨_, _, _, nv, rfl, ⟨p, rfl⟩, hemb⟩, PlainStmt.sp _ _ _ _ _, stmtIn_last a (cv ++ [i]) _ _, hgv1, ?_⟩
+          rw [runIs_append, runIs_append, hr1]
+          simp only [Except.bind]
+          rw [runIs_single, hex]
+          simp only [Except.bind]
+          rw [runIs_single, exec_putloc ctx m j _ hp _ { st with stack := .leaf .const (.s (natStr (6 * j))) ((a + codeSize cv : Nat) : Int) :: nv :: st.stack, gvars := gv1 } hb _ nv st.stack rfl]
+
+
+theorem stmt_delete (t : Expr) (hf : FragS (.delete t) = true) (c : Spec.Ctx) (s0 s1 : St) (cs : List CStmt)
+    (h : lowerStmt c (.delete t) s0 = .ok (cs, s1)) :
+    Ext s0 s1 ∧ ∃ code, cs = [.code code] ∧ (∀ i ∈ code, i.opc ≠ 153) ∧
+    ∀ (sF : St) (ctx : Lscr.Ctx), Ext s1 sF → Rel c sF ctx → ∀ (G : List Spec.Name), (∀ g ∈ (Stmt.delete t).vars .glob, g ∈ G) →
+      (∀ v' ∈ (Stmt.delete t).vars .prop, ctx.props.contains v' = true) →
+      ∀ (a : Nat) (st : PState), st.bpc = 6 → GvOk G st.gvars → Stepped G c.handlers (.delete t) ctx a code st := by
+  simp only [FragS, Bool.and_eq_true] at hf
+  obtain ⟨hch, hft⟩ := hf
+  rw [lowerStmt] at h
+  simp only [M_bind_ok] at h
+  obtain ⟨⟨slots, base⟩, s'', ht, h⟩ := h
+  rcases target_ok c t hft _ _ _ _ ht with ⟨_, sl, sm, i0, rest0, rfl, hsl, hT, hB⟩ | ⟨hnc, rfl, hB⟩
+  · generalize hbe : tgBase t = be at hB
+    cases hB with
+    | field e ce _ _ hfe hS =>
+      simp only [M_pure_ok, Prod.mk.injEq] at h
+      obtain ⟨rfl, rfl⟩ := h
+      rw [hsl]
+      obtain ⟨hext2, hop2, hrun2⟩ := tgt_field_run c t e s0 sm _ sl ce hT hbe hS
+      refine ⟨hext2, _, rfl, ?_, ?_⟩
+      · intro i hi
+        rcases List.mem_append.mp hi with hi | hi
+        · exact hop2 i hi
+        · simp only [List.mem_singleton] at hi; subst hi; simp [Instr.opc]
+      intro sF ctx hF hrel G hG hP a st hb hgv
+      obtain ⟨l, x, gv2, hlen, hnamed, hgv2, hr2, himg⟩ := hrun2 sF ctx hF hrel G (by simpa [Stmt.vars] using hG) a st hb hgv
+      refine ⟨.stmt ((a + codeSize (slotCode sl ++ ce) : Nat) : Int) (.unary (S "delete") ((a + codeSize (slotCode sl ++ ce) : Nat) : Int)
+          (applyL 4 l (.unary (S "field") ((a + codeSize (slotCode sl ++ ce) : Nat) : Int) x) ((a + codeSize (slotCode sl ++ ce) : Nat) : Int))),
+        gv2, ⟨_, _, _, rfl, himg _⟩, PlainStmt.un _ _ _ _, stmtIn_last a (slotCode sl ++ ce) _ _, hgv2, ?_⟩
+      rw [runIs_append, hr2]
+      simp only [Except.bind]
+      rw [runIs_single, exec_delchunk_field ctx _ _ x l hlen hnamed st.stack rfl]
+    | loc v' o _ ho =>
+      simp only [M_bind_ok, M_pure_ok, Prod.mk.injEq] at h
+      obtain ⟨ci, s3, hi, rfl, rfl⟩ := h
+      rw [hsl]
+      obtain ⟨hext2, hop2, hrun2⟩ := tgt_loc_run c t v' o s0 _ _ sl ci hT hbe ho hi
+      refine ⟨hext2, _, rfl, ?_, ?_⟩
+      · intro i hi
+        rcases List.mem_append.mp hi with hi | hi
+        · exact hop2 i hi
+        · simp only [List.mem_singleton] at hi; subst hi; simp [Instr.opc]
+      intro sF ctx hF hrel G hG hP a st hb hgv
+      obtain ⟨l, j, xv, p, gv2, hlen, hnamed, hgv2, hp, hr2, himg⟩ := hrun2 sF ctx hF hrel G (by simpa [Stmt.vars] using hG) a st hb hgv
+      refine ⟨.stmt ((a + codeSize (slotCode sl ++ ci) : Nat) : Int) (.unary (S "delete") ((a + codeSize (slotCode sl ++ ci) : Nat) : Int)
+          (applyL 4 l xv ((a + codeSize (slotCode sl ++ ci) : Nat) : Int))),
+        gv2, ⟨_, _, _, rfl, himg _⟩, PlainStmt.un _ _ _ _, stmtIn_last a (slotCode sl ++ ci) _ _, hgv2, ?_⟩
+      rw [runIs_append, hr2]
+      simp only [Except.bind]
+      rw [runIs_single, exec_delchunk_loc ctx j xv hp _ { st with stack := .leaf .const (.s (natStr (6 * j))) p :: (l ++ st.stack), gvars := gv2 } hb p l hlen hnamed st.stack rfl]
+  · rw [hch] at hnc; cases hnc
+
+theorem stmt_hilite (t : Expr) (hf : FragS (.hilite t) = true) (c : Spec.Ctx) (s0 s1 : St) (cs : List CStmt)
+    (h : lowerStmt c (.hilite t) s0 = .ok (cs, s1)) :
+    Ext s0 s1 ∧ ∃ code, cs = [.code code] ∧ (∀ i ∈ code, i.opc ≠ 153) ∧
+    ∀ (sF : St) (ctx : Lscr.Ctx), Ext s1 sF → Rel c sF ctx → ∀ (G : List Spec.Name), (∀ g ∈ (Stmt.hilite t).vars .glob, g ∈ G) →
+      (∀ v' ∈ (Stmt.hilite t).vars .prop, ctx.props.contains v' = true) →
+      ∀ (a : Nat) (st : PState), st.bpc = 6 → GvOk G st.gvars → Stepped G c.handlers (.hilite t) ctx a code st := by
+  simp only [FragS] at hf
+  rw [lowerStmt] at h
+  simp only [M_bind_ok] at h
+  obtain ⟨⟨slots, base⟩, s'', ht, h⟩ := h
+  -- both shapes run `slotCode sl ++ ce ++ [18]` (`sl = []` for a bare field)
+  have key : ∃ sl sm e ce, cs = [.code (slotCode sl ++ ce ++ [.op1 0x18])] ∧ s1 = s'' ∧ TgtOK c t 0 s0 sm sl ∧ tgBase t = .field e ∧ StackOK c e sm s'' ce := by
+    rcases target_ok c t hf _ _ _ _ ht with ⟨_, sl, sm, i0, rest0, rfl, hsl, hT, hB⟩ | ⟨hnc, rfl, hB⟩
+    · generalize hbe : tgBase t = be at hB
+      cases hB with
+      | field e ce _ _ hfe hS =>
+        simp only [M_pure_ok, Prod.mk.injEq] at h
+        obtain ⟨rfl, rfl⟩ := h
+        exact ⟨sl, sm, e, ce, by rw [hsl], rfl, hT, rfl, hS⟩
+      | loc v' o _ ho => simp [Spec.fail] at h
+    · cases hB with
+      | field e ce _ _ hfe hS =>
+        simp only [M_pure_ok, Prod.mk.injEq] at h
+        obtain ⟨rfl, rfl⟩ := h
+        exact ⟨[], s0, e, ce, rfl, rfl, tgt_nil c _ rfl 0 s0, rfl, hS⟩
+      | loc v' o _ ho => simp [Spec.fail] at h
+  obtain ⟨sl, sm, e, ce, rfl, rfl, hT, hbe, hS⟩ := key
+  obtain ⟨hext2, hop2, hrun2⟩ := tgt_field_run c t e s0 sm _ sl ce hT hbe hS
+  refine ⟨hext2, _, rfl, ?_, ?_⟩
+  · intro i hi
+    rcases List.mem_append.mp hi with hi | hi
+    · exact hop2 i hi
+    · simp only [List.mem_singleton] at hi; subst hi; simp [Instr.opc]
+  intro sF ctx hF hrel G hG hP a st hb hgv
+  obtain ⟨l, x, gv2, hlen, hnamed, hgv2, hr2, himg⟩ := hrun2 sF ctx hF hrel G (by simpa [Stmt.vars] using hG) a st hb hgv
+  refine ⟨.stmt ((a + codeSize (slotCode sl ++ ce) : Nat) : Int) (.unary (S "hilite") ((a + codeSize (slotCode sl ++ ce) : Nat) : Int)
+      (applyL 4 l (.unary (S "field") ((a + codeSize (slotCode sl ++ ce) : Nat) : Int) x) ((a + codeSize (slotCode sl ++ ce) : Nat) : Int))),
+    gv2, ⟨_, _, _, rfl, himg _⟩, PlainStmt.un _ _ _ _, stmtIn_last a (slotCode sl ++ ce) _ _, hgv2, ?_⟩
+  rw [runIs_append, hr2]
+  simp only [Except.bind]
+  rw [runIs_single, exec_hilite ctx _ _ x l hlen hnamed st.stack rfl]
+
+
+/-- **L3**, `set <target> = e`, command calls `f a, b`, `exit`, `put e into|after|before <target>`, `delete <chunk>`, `hilite <target>` -/
 theorem stmt_lemma (s : Stmt) (hf : FragS s = true) (c : Spec.Ctx) (hT : c.inTell = false) (s0 s1 : St) (cs : List CStmt)
     (h : lowerStmt c s s0 = .ok (cs, s1)) :
     Ext s0 s1 ∧ ∃ code, cs = [.code code] ∧ (∀ i ∈ code, i.opc ≠ 153) ∧
@@ -2588,6 +3439,9 @@ theorem stmt_lemma (s : Stmt) (hf : FragS s = true) (c : Spec.Ctx) (hT : c.inTel
     · have := stmtIn_last a [] (Instr.op1 (if c.isMethod = true then 2 else 1)) (.callFn (.s (S "exit")) (a : Int) .none true false false .none)
       simpa [codeSize, exitNode] using this
     rw [runIs_single, exec_exit ctx _ (by cases c.isMethod <;> simp)]
+  | put m v lv => exact stmt_put m v lv hf c s0 s1 cs h
+  | delete t => exact stmt_delete t hf c s0 s1 cs h
+  | hilite t => exact stmt_hilite t hf c s0 s1 cs h
   | _ => simp [FragS] at hf
 
 end Drx.Link
